@@ -7,22 +7,15 @@ import (
 	"strings"
 
 	bexpr "github.com/hashicorp/go-bexpr"
+	"verif.local/verif/simlib/plan"
 	"verif.local/verifsim"
 )
 
-// OptSpec is the serialisable form of the evaluator options.
-type OptSpec struct {
-	Tag     string `json:"tag,omitempty"`     // "" (default bexpr) or a tag name
-	Unknown string `json:"unknown,omitempty"` // "", "str:<s>", "int:<n>", "nil"
-	Hook    string `json:"hook,omitempty"`    // "", identity, unwrap, poison
-}
-
-// ObjSpec names a long-lived object under test.
-type ObjSpec struct {
-	Kind string  `json:"kind"` // evaluator | filter
-	Expr string  `json:"expr"`
-	Opts OptSpec `json:"opts"`
-}
+type (
+	OptSpec   = plan.OptSpec
+	ObjSpec   = plan.ObjSpec
+	DatumSpec = plan.DatumSpec
+)
 
 func hookFor(kind string) bexpr.ValueTransformationHookFn {
 	if kind == "" {
@@ -59,7 +52,7 @@ func hookFor(kind string) bexpr.ValueTransformationHookFn {
 	}
 }
 
-func (o OptSpec) options() []bexpr.Option {
+func optionsOf(o OptSpec) []bexpr.Option {
 	var opts []bexpr.Option
 	if o.Tag != "" {
 		opts = append(opts, bexpr.WithTagName(o.Tag))
@@ -102,7 +95,7 @@ func NewObject(spec ObjSpec) (o *Object) {
 	if spec.Kind == "filter" {
 		o.Fl, err = bexpr.CreateFilter(spec.Expr)
 	} else {
-		o.Ev, err = bexpr.CreateEvaluator(spec.Expr, spec.Opts.options()...)
+		o.Ev, err = bexpr.CreateEvaluator(spec.Expr, optionsOf(spec.Opts)...)
 	}
 	if err != nil {
 		o.Err = normErr(err.Error())
